@@ -163,6 +163,8 @@ class C07(HistoryProp):
                 ops.append(['step', q])
             ops.append(['close', q])
             ops.append(['db', E])
+        if any(op[0] == 'clear' for op in ops) and src.n(2):
+            return {'ops': ops, 'cached_atoms': True}
         return {'ops': ops}
 
     def keep_op(self, op):
